@@ -18,15 +18,6 @@ Record ev_obs := {
 Inductive event := ELine (b : bytes) | EAgg (b : bytes) | ENow (now : N) | ETick (now : N)
   | EModRoute (ri : nat) (m : matcher).   (* Table.UpdateRoute at run time: route ri gets the filter m (in place, nothing republished) *)
 
-Fixpoint set_nth_route (rs : list route) (ri : nat) (m : matcher) : list route :=
-  match rs, ri with
-  | [], _ => []
-  | r :: rs', O => {| r_kind := r_kind r; r_matcher := m; r_dests := r_dests r |} :: rs'
-  | r :: rs', S k => r :: set_nth_route rs' k m
-  end.
-Definition mod_route (t : table) (ri : nat) (m : matcher) : table :=
-  {| t_ll := t_ll t; t_lm := t_lm t; t_order := t_order t; t_blacklist := t_blacklist t; t_rewriters := t_rewriters t;
-     t_aggs := t_aggs t; t_routes := set_nth_route (t_routes t) ri m |}.
 
 Definition verr_code (e : verr) : N * N :=
   match e with
